@@ -17,6 +17,9 @@
 //     events, every final state on the way is reported.
 //  3. live (see live.go): two real overlay.QUIC transports on loopback: simultaneous dials, and
 //     connect / connection dies / reconnect the other way round / late second reap of the dead connection.
+//  4. win (see window.go): two real transports that cache a shared connection negotiate a further one over relayed
+//     negotiation streams, so that the harness executes chosen interleavings of the model (the cached connection dies
+//     and is reaped between an end's CACHED report and its decision, …) with the real reuseConnection / reapPeer.
 package main
 
 import (
@@ -524,6 +527,10 @@ func main() {
 	if err := loadTable(); err != nil {
 		// the decision code is no longer in the shape the extractor understands
 		r.Emit("table", "unreadable:"+strings.ReplaceAll(err.Error(), " ", "_"))
+		// the scenarios with real transports do not need the table
+		relive(r, 2)
+		win(r, winPlans())
+		live(r, 6)
 		r.Finish()
 		return
 	}
@@ -548,6 +555,8 @@ func main() {
 				live(r, 1)
 			case "relive":
 				relive(r, 1)
+			case "win":
+				win(r, []winPlan{{t[1] == "e:out", strings.Split(t[3], ",")}})
 			}
 		}
 		r.Finish()
@@ -577,7 +586,7 @@ func main() {
 	type envCfg struct{ lateP, lateQ, die bool }
 	for _, dual := range []bool{false, true} {
 		for _, pr := range preStates {
-			for _, c := range []envCfg{{true, false, false}, {false, true, false}, {false, false, true}} {
+			for _, c := range []envCfg{{false, false, true}, {true, false, false}, {false, true, false}} {
 				if c.die && !pr.hasE() {
 					continue
 				}
@@ -606,6 +615,11 @@ func main() {
 		nre = 10
 	}
 	relive(r, nre)
+	// real transports, relayed negotiation: the cached connection dies before / between / after the snapshots and the
+	// decisions of a further negotiation
+	for i := 0; i < nre/2; i++ {
+		win(r, winPlans())
+	}
 	for _, pr := range preStates {
 		r.Raw("# case sched")
 		dfs(r, true, pr, initState(true, pr, false, false, false), nil)
